@@ -88,12 +88,12 @@ static void * __attribute__((noinline)) body_main(tnode_t * n, volatile uint8_t 
   case B_WAITER: while (!n->release) { mv_spin(US_GATE); myth_yield(); canary_check(n, buf); } break;
   case B_SPAWNER: {
     tnode_t * g = &T[n->k];
-    myth_create_ex(&g->h, 0, gbody, g); g->handle_valid = 1;
+    Z0(myth_create_ex(&g->h, 0, gbody, g)); g->handle_valid = 1;
     mv_progress(); canary_check(n, buf);
     void * rv = 0;
     if (g->le) g->le->reap_started = 1; else { lthread_t * le = ledger_of_desc(g->h); if (le) le->reap_started = 1; }
     g->reaped = 1;
-    myth_join(g->h, &rv);
+    Z0(myth_join(g->h, &rv));
     if (rv != expected(g)) mt_fail("grandchild %d: joined value %p != %p", g->id, rv, expected(g));
     canary_check(n, buf);
     break; }
